@@ -192,6 +192,10 @@ struct Ctx {
 static CTX: Mutex<Option<Ctx>> = Mutex::new(None);
 /// set while the harness itself touches the disk (evaluating a crash image, setup): events are ignored
 static BUSY: std::sync::atomic::AtomicBool = std::sync::atomic::AtomicBool::new(false);
+/// real-kill validation (thorough tier): the child process aborts itself inside the hook of the
+/// ABORT_AT-th crash-point event
+static ABORT_AT: std::sync::atomic::AtomicU64 = std::sync::atomic::AtomicU64::new(0);
+static IO_COUNT: std::sync::atomic::AtomicU64 = std::sync::atomic::AtomicU64::new(0);
 fn busy() -> bool { BUSY.load(std::sync::atomic::Ordering::SeqCst) }
 fn set_busy(b: bool) { BUSY.store(b, std::sync::atomic::Ordering::SeqCst) }
 
@@ -343,6 +347,10 @@ impl Ctx {
         if role == 2001 && kind == 6 { return; }
         self.phys.push(Phys::Io(kind, role, frames));
         self.j += 1;
+        if self.in_workload {
+            let n = IO_COUNT.fetch_add(1, std::sync::atomic::Ordering::SeqCst) + 1;
+            if n == ABORT_AT.load(std::sync::atomic::Ordering::SeqCst) { std::process::abort(); }
+        }
         self.crash_point();
     }
     fn crash_point(&mut self) {
@@ -473,6 +481,7 @@ fn hook(kind: u32, path: &Path, a: u64, b: u64) {
 }
 
 fn scratch_root() -> PathBuf {
+    if let Ok(r) = std::env::var("C01_ROOT") { return PathBuf::from(r); }
     let base = if Path::new("/dev/shm").is_dir() { PathBuf::from("/dev/shm") } else { PathBuf::from("/verif/build/tmp") };
     base.join(format!("c01-{}", std::process::id()))
 }
@@ -488,8 +497,10 @@ fn open_session(db: &Path) -> Result<Database, String> {
     Ok(d)
 }
 
+fn run_workload(w: &Workload) -> RunOut { run_workload_keep(w, false) }
+
 /// run one workload on the real database, crashing it (on copies) everywhere
-fn run_workload(w: &Workload) -> RunOut {
+fn run_workload_keep(w: &Workload, keep: bool) -> RunOut {
     let root = scratch_root();
     let _ = std::fs::remove_dir_all(&root);
     std::fs::create_dir_all(&root).unwrap();
@@ -560,7 +571,7 @@ fn run_workload(w: &Workload) -> RunOut {
     let _ = catch(AssertUnwindSafe(move || drop(db)));
     out.obs = c.obs; out.evals = c.evals; out.cache_hits = c.cache_hits;
     out.shadow = shadowed_tables(&dbp, &root.join("probe_order"));
-    let _ = std::fs::remove_dir_all(&root);
+    if !keep { let _ = std::fs::remove_dir_all(&root); }
     out
 }
 
@@ -647,7 +658,7 @@ fn model_steps(steps: &[StepRec]) -> Vec<(String, String)> {
             Step::PragmaCkpt => format!("OCkpt {}", zlist(&msyncs(&s.phys))),
             Step::ApiCkpt => "OApiCkpt".into(),
             Step::Reopen => {
-                let cut = s.phys.iter().position(|p| matches!(p, Phys::Io(4, 2000, _))).unwrap_or(s.phys.len());
+                let cut = s.phys.iter().position(|p| matches!(p, Phys::Io(4, 2004, _))).unwrap_or(s.phys.len());
                 format!("OReopen {} {}", zlist(&msyncs(&s.phys[..cut])), zlist(&msyncs(&s.phys[cut..])))
             }
         };
@@ -820,6 +831,7 @@ pub fn main_for(prop: &'static str) {
         "gen" => gen(&a, prop),
         "search" => search(&a, prop),
         "trace" => trace(&a),
+        "child" => child(&a),
         _ => { eprintln!("{}: unknown mode", prop); std::process::exit(2); }
     }
 }
@@ -839,8 +851,14 @@ fn gen(a: &Args, prop: &'static str) {
     let corr = if prop == "C02" { "Corr.C02" } else { "Corr.C01" };
     let mut w = CaseWriter::new(&a.out, prop, corr, 1);
     let mut kill = 0u64; let mut power = 0u64; let mut evals = 0u64; let mut stmt_err = 0u64;
-    for (wl, kind) in workloads(a, 0) {
+    let (mut real_kills, mut real_bad) = (0u64, 0u64);
+    for (widx, (wl, kind)) in workloads(a, 0).into_iter().enumerate() {
         let r = run_workload(&wl);
+        if a.thorough() && a.lines.is_none() && widx < 5 && r.setup_err.is_none() {
+            let (n, b) = real_kill_check(&wl, &r, 5);
+            real_kills += n; real_bad += b;
+            if std::env::var("C01_DEBUG").is_ok() { eprintln!("real kill check: workload {} -> {} compared, {} differ", widx, n, b); }
+        }
         if let Some(e) = &r.setup_err { eprintln!("setup error: {}", e); continue; }
         let (term, n_ok) = case_term(&r);
         if n_ok < r.steps.len() { stmt_err += 1; }
@@ -854,7 +872,76 @@ fn gen(a: &Args, prop: &'static str) {
     w.count("crash_points:power", power);
     w.count("images_reopened", evals);
     w.count("workloads_cut_at_failing_statement", stmt_err);
-    w.finish(&[]);
+    if a.thorough() && a.lines.is_none() { w.count("real_process_kills_compared", real_kills); }
+    w.finish(&[("real_kill_mismatches".to_string(), real_bad.to_string())]);
+    if real_bad > 0 { eprintln!("{} real process kills left a directory that differs from the copied image", real_bad); std::process::exit(3); }
+}
+
+/// child of the real-kill validation: run the workload without evaluating anything and abort()
+/// inside the hook of the k-th crash-point event (the directory is left as the kill left it)
+fn child(a: &Args) {
+    let k: u64 = a.rest.get(0).and_then(|x| x.parse().ok()).unwrap_or(0);
+    let mut w = Workload::parse(&a.rest[1..].join(" ")).expect("bad line");
+    w.only = Some((usize::MAX - 1, 0, 'X'));
+    ABORT_AT.store(k, std::sync::atomic::Ordering::SeqCst);
+    let _ = run_workload_keep(&w, true);
+}
+
+/// open a directory left behind by a killed process: (open code, rows per table)
+fn scan_dir(dir: &Path, universe: &[u32]) -> (i64, Vec<(u32, Option<Vec<(i64, i64)>>)>) {
+    let d2 = dir.to_path_buf();
+    let u = universe.to_vec();
+    set_busy(true);
+    let r = catch(AssertUnwindSafe(move || -> Result<Vec<(u32, Option<Vec<(i64, i64)>>)>, String> {
+        let db = Database::open(&d2).map_err(|e| format!("{:#}", e))?;
+        let mut tabs = vec![];
+        for t in &u {
+            let rows = match catch(AssertUnwindSafe(|| db.query(&format!("SELECT id, v FROM t{}", t)))) {
+                Caught::Done(Ok(rs)) => { let mut v: Vec<(i64, i64)> = rs.iter().filter_map(|r| match (r.values.get(0), r.values.get(1)) { (Some(OwnedValue::Int(k)), Some(OwnedValue::Int(x))) => Some((*k, *x)), _ => None }).collect(); v.sort(); Some(v) }
+                _ => None,
+            };
+            tabs.push((*t, rows));
+        }
+        Ok(tabs)
+    }));
+    set_busy(false);
+    match r { Caught::Done(Ok(t)) => (0, t), Caught::Done(Err(_)) => (1, vec![]), Caught::Panicked(_) => (2, vec![]) }
+}
+
+/// kill a real process at some crash points of the workload and compare what Database::open finds
+/// in the directory it leaves behind with what the in-process copy of the same crash point gave
+fn real_kill_check(wl: &Workload, r: &RunOut, max: usize) -> (u64, u64) {
+    // crash-point events in order; a fresh-base workload has two observations (directory orders) per point
+    let mut pts: Vec<(u64, Vec<&Obs>)> = vec![];
+    for o in r.obs.iter().filter(|o| o.mode == 'K' && o.j != usize::MAX) {
+        match pts.last_mut() {
+            Some((_, v)) if v[0].step == o.step && v[0].j == o.j => v.push(o),
+            _ => { let n = pts.len() as u64 + 1; pts.push((n, vec![o])); }
+        }
+    }
+    if pts.is_empty() { return (0, 0); }
+    let universe: Vec<u32> = wl.steps.iter().filter_map(|s| if let Step::CreateTable(t) = s { Some(*t) } else { None }).fold(vec![], |mut v, t| { if !v.contains(&t) { v.push(t); } v });
+    let stride = (pts.len() / max.max(1)).max(1);
+    let (mut n, mut bad) = (0u64, 0u64);
+    let exe = std::env::current_exe().expect("exe");
+    for (k, os) in pts.iter().step_by(stride).take(max) {
+        let root = scratch_root().with_file_name(format!("c01-kill-{}-{}", std::process::id(), k));
+        let _ = std::fs::remove_dir_all(&root);
+        let mut w2 = wl.clone(); w2.only = None;
+        let st = std::process::Command::new(&exe).arg("child").arg(k.to_string()).args(w2.line().split_whitespace())
+            .env("C01_ROOT", &root).stdout(std::process::Stdio::null()).stderr(std::process::Stdio::null()).status();
+        let killed = st.map(|s| !s.success()).unwrap_or(false);
+        let order = catalog_last(&root.join("db"));
+        let o = os.iter().find(|x| x.div == order).unwrap_or(&os[0]);
+        let (open, tabs) = scan_dir(&root.join("db"), &universe);
+        n += 1;
+        if !killed || open != o.open || (open == 0 && tabs != o.tables) {
+            bad += 1;
+            eprintln!("real kill differs from the copied image: {} at event {}: killed={} open={} vs {} tables={:?} vs {:?}", wl.line(), k, killed, open, o.open, tabs, o.tables);
+        }
+        let _ = std::fs::remove_dir_all(&root);
+    }
+    (n, bad)
 }
 
 fn search(a: &Args, prop: &'static str) {
